@@ -250,6 +250,18 @@ func c02Cells() []cell {
 func genFramePlan(rt *rapid.T, cells []cell) framePlan {
 	c := cells[rapid.IntRange(0, len(cells)-1).Draw(rt, "cell")]
 	p := framePlan{Kind: c.kind, CemiKind: c.cemiKind, Frame: common.GenFrame(rt, c.kind, c.cemiKind)}
+	if c.kind == "descrres" && rapid.Bool().Draw(rt, "kept-blocks") {
+		// further description blocks of the four types the decoder keeps (IP config, current IP config, KNX addresses,
+		// manufacturer data): part of the value, so part of what is encoded
+		for i := 0; i < rapid.IntRange(1, 3).Draw(rt, "n-kept"); i++ {
+			n := rapid.IntRange(1, 40).Draw(rt, "kept-len")
+			if rapid.IntRange(0, 9).Draw(rt, "kept-max") == 0 {
+				n = rapid.IntRange(250, 253).Draw(rt, "kept-len-max")
+			}
+			body := common.GenBytes(rt, "kept-body", n, n)
+			p.Frame.Extra = append(p.Frame.Extra, common.RDIB{Len: uint8(2 + n), Type: rapid.SampledFrom([]uint8{3, 4, 5, 0xfe}).Draw(rt, "kept-type"), Body: body})
+		}
+	}
 	if rapid.IntRange(0, 2).Draw(rt, "used-destination") == 0 {
 		p.Prev = common.GenFrame(rt, c.kind, c.cemiKind)
 	}
